@@ -32,6 +32,8 @@ func runC20(c *Check, tier string) {
 	ruleReachableListUnfiltered(c, "R20m")
 	ruleWrittenOnlyByLoader(c, "R20k", "model.Alias", "Actual", "the graph's edges come from Alias.GetDependencies() = [Actual], so `deps`/`rdeps` answer for the rewritten graph, not for the declared one (an alias of an alias loses its edge to the intermediate alias)")
 	ruleWrittenOnlyByLoader(c, "R20l", "model.Target", "Inputs", "`owners` answers from what the loader resolved (patterns minus exclude_inputs) while the change hash is computed from the rewritten list: editing a file that `owners` attributes to no target re-executes targets")
+	// round 7: a memo inside a traversal remembers complete closures only
+	ruleNoMemoOfPartialTraversal(c, "R20n", "dag", "analysis", "selection")
 }
 
 // cobraCommands maps the `Use` word of each cobra command to its Run function.
